@@ -373,7 +373,9 @@ func (a *Allocation) WriteTo(p []byte, addr net.Addr) (n int, err error) {
 const rtpMTU = 1600
 
 func (a *Allocation) packetConnHandler(manager *Manager) {
-	buffer := make([]byte, rtpMTU)
+	// One byte more than the largest datagram that is relayed, so that a longer
+	// datagram (which the socket truncates to the buffer) can be told apart.
+	buffer := make([]byte, rtpMTU+1)
 
 	for {
 		n, srcAddr, err := a.relayPacketConn.ReadFrom(buffer)
@@ -381,6 +383,15 @@ func (a *Allocation) packetConnHandler(manager *Manager) {
 			manager.DeleteAllocation(a.fiveTuple)
 
 			return
+		}
+
+		if n > rtpMTU {
+			a.log.Debugf("Relay socket %s received a datagram from %s exceeding %d bytes, dropping it",
+				a.relayPacketConn.LocalAddr(),
+				srcAddr,
+				rtpMTU)
+
+			continue
 		}
 
 		a.log.Debugf("Relay socket %s received %d bytes from %s",
